@@ -26,7 +26,7 @@ def run(ctx):
     exe = L.build_harness(ctx, HDIR)
     if not exe:
         return
-    n = 300 if ctx.tier == "quick" else 6000
+    n = 600 if ctx.tier == "quick" else 6000
     rc, out = L.run_harness(ctx, exe, TEST, env={"VERIF_N": n, "VERIF_FLUSH": 1})
     if rc != 0:
         if not L.crash_violation(ctx, TRANSCRIPT, out, "c15"):
